@@ -86,7 +86,9 @@ BFG = os.path.join(core.VENV_BIN, 'bfg9000')
 DIR_POOL = ['src', 'lib', 'include', 'sub', 'a', 'b', 'ab', 'abc', 'd.1', 'v1.2',
             'sp ace', '.hid', '.git', 'old~', 'x[1]', 'x1', 'st*r', 'star', 'q?',
             'qx', 'windows', 'linux', 'foo_darwin', 'posix', 'Src', 'test', 'a-b',
-            'a+b', 'été', '[x]', 'x', 'a!b', 'x]y', 'c,d', 'deep', 'gen2']
+            'a+b', 'été', '[x]', 'x', 'a!b', 'x]y', 'c,d', 'deep', 'gen2',
+            # directory entries that merely LOOK like home-directory references
+            '~', '~root', '~x', '~']
 FILE_POOL = ['a.c', 'b.c', 'ab.c', 'abc.c', 'main.cpp', 'x.h', 'y.hpp', 'README',
              'a.b.c', '.hidden', '.hid.c', 'f~', 'g.c~', '#lock#', '.#lk', '.lk#',
              'sp ace.c', 'st*r.c', 'star.c', 'wh?t.h', 'what.h', 'br[1].c', 'br1.c',
@@ -94,7 +96,8 @@ FILE_POOL = ['a.c', 'b.c', 'ab.c', 'abc.c', 'main.cpp', 'x.h', 'y.hpp', 'README'
              'windows', 'a!b.c', '-dash.c', 'é.c', 'x.c.bak', 'Makefile', 'a',
              'ab', 'abc', 'c', '.c', 'c.', 'x.C', 'foo_windows.tar.gz',
              'mywindows.c', 'darwin.c', '[.c', '!x.c', 'a]', '**', '*', '?', 'x.c',
-             'y.c', 'z.h', 'lib.h', 'util.c', 'util.h', 'test_a.c', 'a_msdos.h']
+             'y.c', 'z.h', 'lib.h', 'util.c', 'util.h', 'test_a.c', 'a_msdos.h',
+             '~root', '~x.c', '~.h']
 FIND_EXCLUDES = [[], ['*~'], ['.*#', '*~', '#*#'], ['.#*', '*~', '#*#'],
                  ['*~', 'old~/'], ['*.bak', '.*'], ['*~', '.git/']]
 CLASS_CHARS = 'abcsxyz01._ *?[,+~'
@@ -551,6 +554,11 @@ def gen_group(rng, g, ctx, small=False, preset=None, preset_wants=None):
         elif typ != 'f' and not wd and rng.random() < 0.05:
             p['s'] += '/'
     allow_slash = typ != 'f'
+    for p in pats:
+        # a TYPED string starting with '~' means the home directory (by design); a top-level
+        # entry that merely has such a name is addressed as './~...'
+        if p['s'].startswith('~'):
+            p['s'] = './' + p['s']
 
     def globs(prob):
         if rng.random() >= prob:
@@ -692,6 +700,8 @@ def gen_dir_group(rng, g, ctx, small=False):
         # make sure the diverting verdict occurs
         flt['rules'].append([rng.choice(['base_endswith', 'base_contains']),
                              rng.choice(['.h', '.c', 'a', '.']), 'not_now'])
+    if name.startswith('~'):
+        name = './' + name      # (see find_files above: a typed '~' is the home directory)
     base = {'fn': fn, 'dirname': name, 'include': include,
             'patterns': [{'s': name + '/' + i, 'root': None, 'obj': False}
                          for i in include],
